@@ -64,7 +64,7 @@ func (ctx *Context) GetParsedOffset() int {
 	return ctx.parser.pt.offset
 }
 
-func (ctx *Context) Parse(value string) error {
+func (ctx *Context) Parse(value string) (err error) {
 	// 检测是否正在执行，正在执行则使用新的上下文
 	if ctx.IsRunning {
 		return errors.New("正在执行中，无法执行新的语句")
@@ -91,7 +91,17 @@ func (ctx *Context) Parse(value string) error {
 	}
 	// 设置错误消息语言
 	SetParseErrorLanguage(ctx.Config.ParseErrorLanguage)
-	_, err := p.parse(nil)
+	defer func() {
+		// 超出 ParseExprLimit 时parser会以panic中止解析，这里转为普通错误，其他panic原样抛出
+		if e := recover(); e != nil {
+			if e != any(errMaxExprCnt) {
+				panic(e)
+			}
+			err = fmt.Errorf("超出解析算力上限: %w", errMaxExprCnt)
+			ctx.Error = err
+		}
+	}()
+	_, err = p.parse(nil)
 	if err != nil {
 		ctx.Error = err
 		return err
